@@ -21,12 +21,12 @@ import (
 )
 
 type rec struct {
-	Ev  string `json:"ev"`
-	N   int    `json:"n,omitempty"`
-	Api string `json:"api,omitempty"`
-	Who int    `json:"who"`
-	Op  string `json:"op,omitempty"`
-	Ok  bool   `json:"ok"`
+	Ev   string `json:"ev"`
+	N    int    `json:"n,omitempty"`
+	Api  string `json:"api,omitempty"`
+	Who  int    `json:"who"`
+	Op   string `json:"op,omitempty"`
+	Ok   bool   `json:"ok"`
 	Name string `json:"name,omitempty"`
 }
 
@@ -64,13 +64,13 @@ func (p *part) Phase2Commit(ctx context.Context) error { return p.o.call(p.who, 
 func (p *part) Rollback(ctx context.Context, err error) error {
 	return p.o.call(p.who, "Rb")
 }
-func (p *part) HasBegun() bool                               { return true }
-func (p *part) GetMode() sop.TransactionMode                 { return sop.ForWriting }
+func (p *part) HasBegun() bool                                  { return true }
+func (p *part) GetMode() sop.TransactionMode                    { return sop.ForWriting }
 func (p *part) GetStores(ctx context.Context) ([]string, error) { return nil, nil }
-func (p *part) Close() error                                 { return nil }
-func (p *part) GetID() sop.UUID                              { return sop.NilUUID }
-func (p *part) CommitMaxDuration() time.Duration             { return time.Minute }
-func (p *part) OnCommit(cb func(ctx context.Context) error)  {}
+func (p *part) Close() error                                    { return nil }
+func (p *part) GetID() sop.UUID                                 { return sop.NilUUID }
+func (p *part) CommitMaxDuration() time.Duration                { return time.Minute }
+func (p *part) OnCommit(cb func(ctx context.Context) error)     {}
 
 // runProgram drives the real wrapper: Begin, then Commit or Rollback as the user script says.
 func runProgram(n int, user string, o *oracle) {
